@@ -72,7 +72,16 @@ def run(chk):
         fl_names = [mir.o_field_path(s)[1][-1:] for s in sides]
         if ["file_ts"] not in fl_names:
             return False, "the period test does not read the file's file_ts", [], per_atom[1].loc
-        if not any(s[0] == "capture" and s[1] == "file_ts" for s in sides):
+        # the other side is (a capture of) the value computed by file_ts(..) for this batch's clock reading - by provenance, not by name
+        def from_file_ts_call(s_):
+            if s_[0] != "capture":
+                return False
+            po = P.capture_origin(fb, s_)
+            par = P.bodies.get(fb.parent_key)
+            if par is None:
+                return False
+            return any(k == "callsite" and par.blocks[v]["term"]["callee"].get("path") == "emit_file::file_ts" for k, v in common.roots(po))
+        if not any(from_file_ts_call(s_) for s_ in sides):
             return False, "the file's period is not compared with the period of the current clock reading", [], per_atom[1].loc
         if size_atom[1] != "Le":
             return False, "size test is `%s`, must be `size + remaining <= max`" % size_atom[1], [], fb.span
